@@ -203,7 +203,8 @@ func (e *PathMatchExpression) match(segs segments, base *Path, candidate *Path) 
 		}
 		p = p.Parent
 		if p == nil {
-			panic("illegal call : base was not found to be any parent of candidate")
+			// selector is longer than the candidate's path below base
+			return false
 		}
 		j--
 	}
